@@ -171,6 +171,7 @@ def election_prog(msg: 'str'):
 
 @contract('droop.election.Election.Ballot.advance', props=['C06'])
 def ballot_advance(self: 'Ballot'):
+    requires(and_(self.index >= 0, self.index < seq_len(self.ranking)), name='advance only a ballot that is not exhausted')
     ensures(self.index == old(self.index) + 1)
     modifies(self, 'index')
 
